@@ -7,9 +7,11 @@ the code by the correspondence harness tools/harness/c14.py).  Specification: `S
 Helper lemmas: `SkNet/Lemmas/Heat*.lean`.  All theorems hold for every graph size and every number of rounds.
 -/
 import SkNet.Lemmas.HeatValues
+import SkNet.Lemmas.HeatHarmonic
+import SkNet.Lemmas.HeatConverge
 
 namespace SkNet.C14
-open SkNet SkNet.Heat
+open SkNet SkNet.Heat SkNet.HeatSpec
 
 attribute [-simp] List.getD_eq_getElem?_getD
 
@@ -261,5 +263,144 @@ theorem values_forms_agree (algo : Algo) (nRow nCol nnz : Nat) (B : Nat → Nat 
 example : seedsArray 5 [(0, 1), (2, 0)] (-1) = [1, -1, 0, -1, -1] := by decide +kernel
 example : (fit .dirichlet 5 5 12 houseAdj { values := .list [1, -1, 0, -1, -1] } 2 0).toOption
     = (fit .dirichlet 5 5 12 houseAdj { values := .dict [(0, 1), (2, 0)] } 2 0).toOption := by decide +kernel
+
+/-! ## the harmonic solution -/
+
+/-- **harmonic_unique**. On a graph with non-negative weights in which every node reaches a seed along edges of
+positive weight (directed graphs included), the function that equals the seed temperatures on the boundary and the
+weighted mean of its neighbours elsewhere is unique. -/
+theorem harmonic_unique_of_reach (n : Nat) (w : Nat → Nat → Rat) (seed : Nat → Bool) (temp h1 h2 : Nat → Rat)
+    (hw : ∀ i j, i < n → j < n → 0 ≤ w i j)
+    (hreach : ∀ i, i < n → ∃ t, ReachesSeed n w seed t i)
+    (H1 : IsHarmonic n w seed temp h1) (H2 : IsHarmonic n w seed temp h2) :
+    ∀ i, i < n → h1 i = h2 i :=
+  Heat.harmonic_unique_of_reach hw hreach H1 H2
+
+/-- **harmonic_unique (as the property words it)**: a connected graph with a non-empty boundary. -/
+theorem harmonic_unique (n : Nat) (w : Nat → Nat → Rat) (seed : Nat → Bool) (temp h1 h2 : Nat → Rat)
+    (hw : ∀ i j, i < n → j < n → 0 ≤ w i j)
+    (hconn : Connected n w) (b : Nat) (hb : b < n) (hs : seed b = true)
+    (H1 : IsHarmonic n w seed temp h1) (H2 : IsHarmonic n w seed temp h2) :
+    ∀ i, i < n → h1 i = h2 i :=
+  Heat.harmonic_unique_of_reach hw (connected_reachesSeed hconn hb hs) H1 H2
+
+/-- Non-vacuity: the path 0 – 1 – 2 with weights 1 and 3, seeds `0 ↦ 0`, `2 ↦ 1`: the harmonic function is
+`[0, 3/4, 1]`, every node reaches a seed, and the 2-node graph with one edge is connected. -/
+def pathW (i j : Nat) : Rat :=
+  if (i, j) = (0, 1) ∨ (i, j) = (1, 0) then 1 else if (i, j) = (1, 2) ∨ (i, j) = (2, 1) then 3 else 0
+
+example : IsHarmonic 3 pathW (fun i => i != 1) (fun i => if i = 2 then 1 else 0)
+    (fun i => [0, 3/4, 1].getD i 0) := by
+  intro i hi
+  have : i = 0 ∨ i = 1 ∨ i = 2 := by omega
+  rcases this with rfl | rfl | rfl <;> decide +kernel
+example : ∀ i, i < 3 → ∃ t, ReachesSeed 3 pathW (fun i => i != 1) t i := by
+  intro i hi
+  have : i = 0 ∨ i = 1 ∨ i = 2 := by omega
+  rcases this with rfl | rfl | rfl
+  · exact ⟨0, .here (by omega) rfl⟩
+  · exact ⟨1, .step (j := 2) (by omega) (by decide +kernel) (.here (by omega) rfl)⟩
+  · exact ⟨0, .here (by omega) rfl⟩
+example : Connected 2 (fun i j => if i ≠ j then 1 else 0) := by
+  intro i j hi hj
+  have hi' : i = 0 ∨ i = 1 := by omega
+  have hj' : j = 0 ∨ j = 1 := by omega
+  rcases hi' with rfl | rfl <;> rcases hj' with rfl | rfl
+  · exact .refl (by omega)
+  · exact .head (k := 1) (by omega) (by decide +kernel) (.refl (by omega))
+  · exact .head (k := 0) (by omega) (by decide +kernel) (.refl (by omega))
+  · exact .refl (by omega)
+
+/-- **Every fixed point of the Dirichlet round is that function** (and conversely): for a vector `v` of length `n`,
+non-negative weights and every non-seed node having an outgoing edge,
+`values = P.dot(values); values[border] = temperatures[border]` leaves `v` unchanged iff `v` is harmonic. -/
+theorem dirichlet_fixed_point_iff_harmonic (n : Nat) (A : Nat → Nat → Rat) (temps : List Rat) (border : List Bool)
+    (v : List Rat) (hlen : v.length = n)
+    (hA : ∀ i j, i < n → j < n → 0 ≤ A i j)
+    (hN : ∀ i, i < n → border.getD i false = false → rowNorm n A i ≠ 0) :
+    dirichletStep n (mat n n (normalize n A)) temps border v = v ↔
+      IsHarmonic n A (fun i => border.getD i false) (fun i => temps.getD i 0) (fun i => v.getD i 0) :=
+  dirichletStep_fixed_iff hlen hA hN
+
+/-- Non-vacuity: `[0, 3/4, 1]` is a fixed point of the round on the weighted path above. -/
+example : dirichletStep 3 (mat 3 3 (normalize 3 pathW)) [0, -1, 1] [true, false, true] [0, 3/4, 1] = [0, 3/4, 1] := by
+  decide +kernel
+
+/-- **dirichlet_nonexpansive**. Let `h` be harmonic for the boundary values. If a vector is within `M` of `h` at
+every node, it still is after any number of Dirichlet rounds: the sup-distance to the harmonic solution never
+increases. -/
+theorem dirichlet_nonexpansive (n : Nat) (A : Nat → Nat → Rat) (temps : List Rat) (border : List Bool)
+    (h : Nat → Rat) (M : Rat) (hn : 0 < n)
+    (hA : ∀ i j, i < n → j < n → 0 ≤ A i j)
+    (hN : ∀ i, i < n → border.getD i false = false → rowNorm n A i ≠ 0)
+    (hH : IsHarmonic n A (fun i => border.getD i false) (fun i => temps.getD i 0) h)
+    (k : Nat) (v : List Rat)
+    (hv : ∀ i, i < n → absQ (v.getD i 0 - h i) ≤ M) :
+    ∀ i, i < n →
+      absQ ((loop (dirichletStep n (mat n n (normalize n A)) temps border) k v).getD i 0 - h i) ≤ M := by
+  have hinv := loop_invariant (step := dirichletStep n (mat n n (normalize n A)) temps border)
+    (fun v => ∀ i, i < n → -M ≤ v.getD i 0 - h i ∧ v.getD i 0 - h i ≤ M)
+    (fun v hv => dirichletStep_harmonic_diff hA hN hH hn hv) k v
+    (fun i hi => absQ_le_iff.1 (hv i hi))
+  exact fun i hi => absQ_le_iff.2 (hinv i hi)
+
+/-- **dirichlet_contracts**. If every node reaches a seed within `T` steps and `δ ∈ (0,1]` bounds from below the
+transition probabilities of the edges, then from round `T+1` on the sup-distance of the Dirichlet iterates to the
+harmonic function `h` is at most `(1 − δ^T)` times the initial one: a geometric contraction. -/
+theorem dirichlet_contracts (n : Nat) (A : Nat → Nat → Rat) (temps : List Rat) (border : List Bool) (h : Nat → Rat)
+    (hn : 0 < n)
+    (hA : ∀ i j, i < n → j < n → 0 ≤ A i j)
+    (hH : IsHarmonic n A (fun i => border.getD i false) (fun i => temps.getD i 0) h)
+    (δ : Rat) (hδ0 : 0 < δ) (hδ1 : δ ≤ 1)
+    (hδ : ∀ i j, i < n → j < n → 0 < A i j → δ ≤ normalize n A i j)
+    (T : Nat) (hT : ∀ i, i < n → ReachesSeed n A (fun i => border.getD i false) T i)
+    (M : Rat) (v : List Rat) (hv : ∀ i, i < n → absQ (v.getD i 0 - h i) ≤ M)
+    (s : Nat) (hs : T + 1 ≤ s) :
+    ∀ i, i < n →
+      absQ ((loop (dirichletStep n (mat n n (normalize n A)) temps border) s v).getD i 0 - h i) ≤ (1 - δ ^ T) * M := by
+  have hN : ∀ i, i < n → border.getD i false = false → rowNorm n A i ≠ 0 :=
+    fun i hi hb => rowNorm_ne_zero_of_reach (hT i hi) hb
+  have := contracts_uniform hA hN hH hn hδ0 hδ1 hδ hT (M := M) (v := v) (fun i hi => absQ_le_iff.1 (hv i hi)) s hs
+  exact fun i hi => absQ_le_iff.2 (this i hi)
+
+/-- **dirichlet_converges**. On a graph with non-negative weights in which every node reaches a seed (in particular a
+connected undirected graph with a non-empty boundary), let `h` be the function equal to the seeds on the boundary
+and to the weighted mean of its neighbours elsewhere. Then for every `ε > 0` there is a `K` such that for **every**
+`n_iter ≥ K` (and every `init`) the vector computed by `Dirichlet.fit` is within `ε` of `h` at every node. -/
+theorem dirichlet_converges (p : Prepared) (init : Option Rat) (α : Rat) (h : Nat → Rat)
+    (hlen : p.seeds.length = p.n) (hn : 0 < p.n)
+    (hA : ∀ i j, i < p.n → j < p.n → 0 ≤ p.adj i j)
+    (hreach : ∀ i, i < p.n → ∃ t, ReachesSeed p.n p.adj (fun i => decide (0 ≤ p.seeds.getD i 0)) t i)
+    (hH : IsHarmonic p.n p.adj (fun i => decide (0 ≤ p.seeds.getD i 0)) (fun i => p.seeds.getD i 0) h)
+    (ε : Rat) (hε : 0 < ε) :
+    ∃ K, ∀ k, K ≤ k → ∀ v, fitVector .dirichlet p init k α = .ok v →
+      ∀ i, i < p.n → absQ (v.getD i 0 - h i) ≤ ε :=
+  fitVector_converges p init α h hlen hn hA hreach hH ε hε
+
+/-- … and at the level of `fit` on an adjacency matrix: `values_` converges to the harmonic function. -/
+theorem dirichlet_fit_converges (n nnz : Nat) (B : Nat → Nat → Rat) (a : Args) (α : Rat) (p : Prepared)
+    (h : Nat → Rat) (hprep : getAdjacencyValues n n nnz B a = .ok p) (hbip : p.bipartite = false) (hn : 0 < n)
+    (hB : ∀ i j, 0 ≤ B i j)
+    (hreach : ∀ i, i < n → ∃ t, ReachesSeed n B (fun i => decide (0 ≤ p.seeds.getD i 0)) t i)
+    (hH : IsHarmonic n B (fun i => decide (0 ≤ p.seeds.getD i 0)) (fun i => p.seeds.getD i 0) h)
+    (ε : Rat) (hε : 0 < ε) :
+    ∃ K : Nat, ∀ nIter : Int, (K : Int) ≤ nIter → ∀ out, fit .dirichlet n n nnz B a nIter α = .ok out →
+      ∀ i, i < n → absQ (out.values.getD i 0 - h i) ≤ ε := by
+  obtain ⟨_, hlen, _, hsq⟩ := getAdjacencyValues_ok hprep
+  obtain ⟨hpn, hadj, _⟩ := hsq hbip
+  obtain ⟨K, hK⟩ := dirichlet_converges p a.init α h hlen (hpn ▸ hn) (fun i j _ _ => hadj ▸ hB i j)
+    (by rw [hpn, hadj]; exact hreach) (by rw [hpn, hadj]; exact hH) ε hε
+  refine ⟨K, fun nIter hk out hfit i hi => ?_⟩
+  obtain ⟨_, p', v, hp', hv, rfl⟩ := fit_ok hfit
+  rw [hprep] at hp'; cases hp'
+  simp only [splitVars, hbip]
+  exact hK nIter.toNat (by omega) v hv i (hpn ▸ hi)
+
+/-- Non-vacuity: on the weighted path above with the seeds `0 ↦ 0`, `2 ↦ 1` (dict form) the hypotheses hold with
+`h = [0, 3/4, 1]`; 1 round already gives the harmonic value at the only free node. -/
+example : (getAdjacencyValues 3 3 4 pathW { values := .dict [(0, 0), (2, 1)] }).toOption.map (·.seeds)
+    = some [0, -1, 1] := by decide +kernel
+example : (fit .dirichlet 3 3 4 pathW { values := .dict [(0, 0), (2, 1)] } 1 0).toOption.map (·.values)
+    = some [0, 3/4, 1] := by decide +kernel
 
 end SkNet.C14
